@@ -82,6 +82,23 @@ def gen_mm(rng):
         elif not ev:
             b = net["bus"][int(rng.integers(0, nb))]["idx"]
             ev.append(dict(kind="fault", bus=b, tf=0.2, tc=0.27, xf=0.01, rf=0.0))
+    # a branch that is out of service in the power flow and switched IN during the run (same Toggle device, other direction)
+    off_chords = [ln for k, ln in enumerate(net["line"]) if k >= nb - 1 and not ln["u"]]
+    used = set(e.get("line") for e in ev)
+    on_chords = [ln for k, ln in enumerate(net["line"]) if k >= nb - 1 and ln["u"] and ln["idx"] not in used]
+    if not off_chords and on_chords and rng.random() < 0.5:
+        # take a chord out of service for the power flow (the network stays connected); keep it only if the own solver
+        # still certifies the network and the machines still generate
+        ln = on_chords[int(rng.integers(0, len(on_chords)))]
+        ln["u"] = 0
+        r2 = opf.solve(gnet.to_oracle(net))
+        if r2["converged"] and all(0.05 < r2["Sgen"][pos[g["bus"]]].real < 3.0 for g in gens):
+            off_chords = [ln]
+        else:
+            ln["u"] = 1
+    if off_chords and rng.random() < 0.7:
+        ln = off_chords[int(rng.integers(0, len(off_chords)))]
+        ev.append(dict(kind="trip", line=ln["idx"], t=float(np.round(rng.uniform(0.85, 1.2), 3)), tclose=None, closes=True))
     return dict(net=net, mach=mach, ev=ev)
 
 
@@ -259,6 +276,9 @@ def run_mm(spec, res):
         return
     res.count("mm_runs", len(hs))
     res.count("mm_machines", m)
+    res.count("mm_branches_switched_in", sum(1 for e in p["ev"] if e.get("closes")))
+    res.count("mm_faults", sum(1 for e in p["ev"] if e["kind"] == "fault"))
+    res.count("mm_branch_trips", sum(1 for e in p["ev"] if e["kind"] == "trip" and not e.get("closes")))
     amp = float(np.max(np.abs(Y[:, :m] - Y[0, :m])))
     tag = "multi-machine %d buses %d machines events %s (%s)" % (len(p["net"]["bus"]), m, [
         {k: v for k, v in e.items()} for e in p["ev"]], method)
